@@ -59,6 +59,27 @@ META = {
         "level_note": "Metamorphic: trusts apollo's parser to read back what the serializer wrote (C08/C05 cover that separately); the digest is the harness's own walk of the public Schema API.",
         "design_ref": "DESIGN.md section 6, C12",
     },
+    "C13": {
+        "budget": {"quick": 35, "thorough": 480},
+        "rule": "model-generated type-system documents (with extensions), 2/3 of them with one deliberate collision (duplicate type/directive, kind-mismatched or orphan extension, duplicate component in an extension, "
+                "extra schema definition, duplicate root operation, built-in redefinition, executable definition in a schema source), printed one definition at a time; claim 1: every cut into <= 3 consecutive sources "
+                "(exhaustive for <= 6 definitions, random beyond) fed to Schema::builder (with and without adopt_orphan_extensions) vs the concatenation: same ok/err, same ordered digest, same ordered diagnostic messages; "
+                "claim 2: every extension sitting after its definition is moved before it: same ok/err, PartialEq, digest (ordered when it is the only extension of its target), same multiset of messages; "
+                "claim 1 also for executable documents through ExecutableDocument::builder with and without schema (duplicate definitions, several anonymous operations, type-system definitions mixed in). "
+                "distinct_nontrivial = distinct multi-source splits that contain an extension or produce a diagnostic, plus distinct moves",
+        "assumptions": COMMON_ASSUMPTIONS + [
+            "each source is a sequence of complete definitions (as the property's quantifier states)",
+            "for the move claim, when the target has several extensions only the order-insensitive digest is compared (the property says the built schema does not change; Schema equality ignores map order)",
+        ],
+        "floors": {"any": {"collision": ["duplicate-type", "kind-mismatched-extension", "orphan-type-extension", "duplicate-component-in-extension", "extra-schema-definition", "none"],
+                           "move_kind": ["type-extension", "kind-mismatched-type-extension", "schema-extension"],
+                           "exec_split_mode": ["with-schema", "without-schema"],
+                           "split_outcome": ["builds", "build-errors"]}},
+        "technique": "runtime monitoring: metamorphic monitor comparing multi-source builder histories with the concatenated build (ordered digest + diagnostic messages) on generated documents with injected collisions",
+        "level_text": "Exploration: 10^5-10^6 builder histories (all cuts of small documents, all extension moves) are compared with the single-source build by an order-sensitive digest and the diagnostic message list.",
+        "level_note": "Metamorphic: both sides go through apollo's parser and builder; the relation between them is the property. The digest is the harness's own walk of the public Schema API.",
+        "design_ref": "DESIGN.md section 6, C13",
+    },
 }
 
 # Properties not claimed, with the reason (kept current; see DESIGN.md section 10).
